@@ -170,13 +170,19 @@ def body_debugger(I, X, cmd="eval", hn=3, secret="right", cookie_kind="absent"):
     app.debug_application = const_app
     right_pin = app.pin
     # solver-quantified pieces
-    host = X.str("host", hn, minlen=hn, maxcp=0x7F)
-    X.assume(pall_in(host, HOST_ALPHA))
+    if hn < 0:
+        host = None   # no Host header at all: never trusted, even if the server's own name is
+    else:
+        host = X.str("host", hn, minlen=hn, maxcp=0x7F)
+        X.assume(pall_in(host, HOST_ALPHA))
     now = X.int("now", 1700000000, 1700000100)
     counter = X.int("failed", 0, 40)
     ts = None
     environ = {"HTTP_HOST": host, "REQUEST_METHOD": "GET", "wsgi.url_scheme": "http", "SERVER_NAME": "srv", "SERVER_PORT": "80",
                "PATH_INFO": "/", "QUERY_STRING": ""}
+    if host is None:
+        del environ["HTTP_HOST"]
+        environ["SERVER_NAME"] = "c"   # the bind name itself is on the trusted list
     if pin_on and cookie_kind != "absent":
         if cookie_kind == "malformed":
             environ["HTTP_COOKIE"] = f"{app.pin_cookie_name}=nonsense"
@@ -225,7 +231,7 @@ def body_debugger(I, X, cmd="eval", hn=3, secret="right", cookie_kind="absent"):
     finally:
         dbg.Request, dbg.time, dbg.render_console_html = saved
     response = resp_holder["response"]
-    host_ok = ref_trusted(host, app.trusted_hosts)
+    host_ok = False if host is None else ref_trusted(host, app.trusted_hosts)
     cookie_ok = (not pin_on) or (cookie_kind == "valid-hash" and (now - dbg.PIN_TIME) < ts)
     evaluated = len(spy.evaluated) > 0
     is_sec_err = isinstance(response, SecurityError)
@@ -344,7 +350,7 @@ def obligations(tier, seed):
                             "params": {"n": n, "tl": tl, "via": "get_host", "scheme": scheme, "suffix": suffix},
                             "opts": {"budget_s": 900, "ctx": {"max_cp": 0x7F}}})
     for cmd in ("eval", "console", "pinauth", "printpin", "resource", "none"):
-        for hn in ([1, 3] if quick else [0, 1, 2, 3, 4]):
+        for hn in ([-1, 1, 3] if quick else [-1, 0, 1, 2, 3, 4]):
             for secret in ("right", "wrong", "absent"):
                 for ck in ("absent", "valid-hash", "wrong-hash", "malformed"):
                     out.append({"name": f"debugger[{cmd},host_len={hn},secret={secret},cookie={ck}]", "body": "body_debugger",
